@@ -22,6 +22,8 @@ PRELUDE = """
     pub struct NestB<'a> { pub inner: SB<'a>, pub n: u8 }
     pub struct Nest2<'a, 'b> { pub first: SB<'a>, pub second: SB<'b>, pub sl: SSl<'b> }
     pub struct S3<'a, 'b, 'c: 'b> { pub x: &'a Op, pub y: &'b Op, pub z: &'c Op }
+    pub struct SRef<'a, 'b> { pub r: &'a OpL<'b> }
+    pub struct SOptRef<'a, 'b> { pub r: Option<&'a OpL<'b>>, pub n: u8 }
     pub struct SSl<'a> { pub s: DiplomatSlice<'a, u8>, pub r: &'a Op }
     pub struct SSl2<'a, 'b> { pub s: DiplomatSlice<'a, u8>, pub t: DiplomatStr16Slice<'b>, pub n: u8 }
     #[diplomat::out]
@@ -30,7 +32,8 @@ PRELUDE = """
 
 
 class Form:
-    def __init__(self, name, holes, text, slots, implied=lambda l: [], optional=False, static_only=False):
+    def __init__(self, name, holes, text, slots, implied=lambda l: [], optional=False, static_only=False, defsite=False):
+        self.defsite = defsite   # the implied bounds come from the DEFINITION of the type (must be restated on the method)
         self.name = name
         self.holes = holes
         self._text = text
@@ -60,6 +63,10 @@ PARAM_FORMS = [
     Form("&'x OpL<'y>", 2, lambda l: "&%s OpL<%s>" % (_lt(l[0]), _lt(l[1])),
          lambda l: [("opaque", None, l[0]), ("opaque", None, l[1])], lambda l: [(l[1], l[0])]),
     Form("Option<&'x Op>", 1, lambda l: "Option<&%s Op>" % _lt(l[0]), lambda l: [("opaque", None, l[0])]),
+    Form("Option<&'x OpL<'y>>", 2, lambda l: "Option<&%s OpL<%s>>" % (_lt(l[0]), _lt(l[1])),
+         lambda l: [("opaque", None, l[0]), ("opaque", None, l[1])], lambda l: [(l[1], l[0])]),
+    # an explicit 'static in the generic slot, in front of the lifetime that ties the parameter to the output
+    Form("&'x OpL<'static>", 1, lambda l: "&%s OpL<'static>" % _lt(l[0]), lambda l: [("opaque", None, l[0])]),
     Form("&'x [u8]", 1, lambda l: "&%s [u8]" % _lt(l[0]), lambda l: [("slice", None, l[0])]),
     Form("&'x str", 1, lambda l: "&%s str" % _lt(l[0]), lambda l: [("slice", None, l[0])]),
     Form("&'x DiplomatStr16", 1, lambda l: "&%s DiplomatStr16" % _lt(l[0]), lambda l: [("slice", None, l[0])]),
@@ -84,6 +91,13 @@ PARAM_FORMS = [
     Form("u32", 0, lambda l: "u32", lambda l: []),
 ]
 PARAM_FORMS_BY_NAME = {f.name: f for f in PARAM_FORMS}
+# structs whose definition implies a bound through a FIELD type (&'a OpL<'b> / Option<&'a OpL<'b>>: 'b: 'a)
+SREF_PARAM = Form("SRef<'x,'y>", 2, lambda l: "SRef<%s, %s>" % (_lt(l[0]), _lt(l[1])), lambda l: [("struct", "a", l[0]), ("struct", "b", l[1])],
+                  lambda l: [(l[1], l[0])], defsite=True)
+SOPTREF_PARAM = Form("SOptRef<'x,'y>", 2, lambda l: "SOptRef<%s, %s>" % (_lt(l[0]), _lt(l[1])), lambda l: [("struct", "a", l[0]), ("struct", "b", l[1])],
+                     lambda l: [(l[1], l[0])], defsite=True)
+PARAM_FORMS_BY_NAME[SREF_PARAM.name] = SREF_PARAM
+PARAM_FORMS_BY_NAME[SOPTREF_PARAM.name] = SOPTREF_PARAM
 # forms used by single checks only (not part of the C04 parameter menu): a three-slot struct whose definition-site bound sits on
 # the last slot, so that the first two slots can carry the same use-site lifetime
 S3_PARAM = Form("S3<'x,'y,'z>", 3, lambda l: "S3<%s, %s, %s>" % (_lt(l[0]), _lt(l[1]), _lt(l[2])),
@@ -228,6 +242,8 @@ class Sig:
                 b.add((l[1], l[0]))
             elif f.name.startswith("S3<"):
                 b.add((l[2], l[1]))
+            elif f.defsite:
+                b.update(f.implied(l))
         return {(x, y) for (x, y) in b if x != y}
 
     def ref_implied_bounds(self):
@@ -236,7 +252,7 @@ class Sig:
         if self.selff == "&'x self on OpL<'y>":
             b.add((self.self_l[1], self.self_l[0]))
         for f, l in list(self.params) + [(self.ret, self.ret_l)]:
-            if "S2b<" not in f.name and not f.name.startswith("S3<"):
+            if "S2b<" not in f.name and not f.name.startswith("S3<") and not f.defsite:
                 b.update(f.implied(l))
         return {(x, y) for (x, y) in b if x != y}
 
